@@ -61,3 +61,22 @@ Section T.
     split; [apply render_wf; destruct t; cbn; auto|apply strip_render].
   Qed.
 End T.
+
+(* two tables that compare every pair of operators alike print alike *)
+Lemma needs_parens_ext (p1 p2 : binop -> nat) (r1 r2 : binop -> bool) :
+  (forall a b, Nat.ltb (p1 a) (p1 b) = Nat.ltb (p2 a) (p2 b)) ->
+  (forall a b, Nat.eqb (p1 a) (p1 b) = Nat.eqb (p2 a) (p2 b)) ->
+  (forall a, r1 a = r2 a) ->
+  forall c p s, needs_parens p1 r1 c p s = needs_parens p2 r2 c p s.
+Proof. intros L E R c p s. unfold needs_parens. rewrite L, E, !R. reflexivity. Qed.
+
+Lemma render_ext (p1 p2 : binop -> nat) (r1 r2 : binop -> bool) :
+  (forall c p s, needs_parens p1 r1 c p s = needs_parens p2 r2 c p s) ->
+  forall t, render p1 r1 t = render p2 r2 t.
+Proof.
+  intros N. induction t as [a|op l IHl r IHr|op u IHu]; cbn [render]; [reflexivity| |].
+  - f_equal.
+    + destruct l as [|lop l1 l2|]; try exact IHl. rewrite N. destruct (needs_parens p2 r2 lop op false); rewrite IHl; reflexivity.
+    + destruct r as [|rop r1' r2'|]; try exact IHr. rewrite N. destruct (needs_parens p2 r2 rop op true); rewrite IHr; reflexivity.
+  - f_equal. destruct u; rewrite IHu; reflexivity.
+Qed.
